@@ -90,7 +90,9 @@ def structure_features(rows):
 
 
 def store_cid(ctx, rows, how, tag):
-    path = os.path.join(ctx.tmp, "cid_%s.%s" % (tag, how))
+    # (the kind of file is told by its suffix, in whatever letter case the file system shows it)
+    suffix = [how, how.upper(), how.capitalize()][(len(rows) + sum(len(r) for r in rows)) % 3]
+    path = os.path.join(ctx.tmp, "cid_%s.%s" % (tag, suffix))
     if how == "csv":
         # every third CSV carries the byte order mark that "CSV UTF-8" exports of spreadsheet applications start with
         with open(path, "w", encoding="utf-8-sig" if len(rows) % 3 == 0 else "utf-8", newline="") as f:
